@@ -45,6 +45,9 @@ func main() {
 		&lib.Prop{ID: "C15", Part: "real-recovery", Level: "fault_enumeration", NCases: n(12, 400), Run: c01FullRestart,
 			Assumptions: append([]string{"slow tier: real workers; the same scenarios as C01/full-restart, judged for C15: deploys only to live nodes, exactly W members, one checkpoint per deploy round, checkpointing resumes after the recovery (or stuck-state witness), replacement workers keep processing to the end of the input"}, clAssume...),
 			Rule:        "see C01/full-restart (crash points incl. during a checkpoint after the j-th acknowledgement); C15 oracles: deployOracle + bounded progress (a checkpoint is published after the last recovery) + every record of the input processed by the recovered assembly"},
+		&lib.Prop{ID: "C14", Part: "after-scale-down", Level: "exploration", NCases: n(10, 200), Run: c14AfterScaleDown,
+			Assumptions: append([]string{"local-directory storage (the artifact code copies files)"}, clAssume...),
+			Rule: "directed variant of part savepoint: 2..4 workers with a 300-byte memtable (every operator writes several table files before the first checkpoint, few compactions), the whole job is restarted with fewer workers so that one operator inherits the tables of several former operators (equal file names in different directories), the savepoint is requested while those tables are still referenced, then everything is killed, working storage and job checkpoints are deleted and a new job starts from the savepoint URI; same oracles as part savepoint (state supplied to every handler call = shadow cut of the savepoint's checkpoint, every split resumes from its recorded position, final state = every keyed event once)"},
 		&lib.Prop{ID: "C14", Part: "savepoint", Level: "exploration", NCases: n(20, 600), Run: c14Savepoint,
 			Assumptions: append([]string{"local-directory storage (the artifact code copies files)", "restore = a new job created with SavepointURI after every worker and the job were killed and the working storage and the job's checkpoints directory were deleted"}, clAssume...),
 			Rule:        "a job builds state (memory only or flushed, by dkv tuning; timers pending), 0..2 periodic checkpoints, then a savepoint is requested when idle / mid flow / while a periodic checkpoint is in progress with its acknowledgements held (once or twice); the job continues (more records, more checkpoints, retention); everything is killed and ALL working storage deleted; a new job starts from the savepoint URI with the same or a different worker count; oracles: the request folds into the pending checkpoint (same id, no extra StartCheckpoint), first phase undisturbed (handler-side state oracle), after the restore the shadow is the cut of the savepoint's checkpoint and every handler invocation's supplied state must equal it, every split resumes from the recorded position, pending timers fire, every keyed event of the input takes effect exactly once; non-trivial = always; distinct by (options, mode, positions)"},
